@@ -1,5 +1,6 @@
 import HgVerif.Model.DynLifecycle
 import HgVerif.Model.Slots
+import HgVerif.Model.Reduce
 import HgVerif.Driver.Proto
 /-! Model driver for the dynamic-children stream of C14: same line protocol as `harness/drv_dynlife.cpp`.
 
@@ -107,6 +108,7 @@ deriving Repr
 
 structure DS where
   isSwitch : Bool := false
+  isReduce : Bool := false
   n : Nat := 1
   cleanup : Bool := true
   plan : Plan := {}
@@ -161,6 +163,79 @@ def mapInputs (cycles : List (List Op)) : List CycleIn :=
       (y, present', x2.2, idx + 1, out ++ [I])
   (cycles.foldl step (({} : TSD), ([] : List Int), (0 : Int), 0, ([] : List CycleIn))).2.2.2.2
 
+/-- descending insertion without duplicates -/
+def insertDescU (x : Nat) : List Nat → List Nat
+  | [] => [x]
+  | y :: ys => if y < x then x :: y :: ys else if y = x then y :: ys else y :: insertDescU x ys
+
+/-- `append_leaf_path`: the ancestors of a dense leaf that hold a live combiner -/
+def livePath (cap : Nat) (comb : List Bool) (leaf : Nat) : List Nat :=
+  (HgVerif.Reduce.pathFrom comb.length (HgVerif.Reduce.internalCount cap + leaf)).filter fun p => comb[p]? == some true
+
+open HgVerif.Slots HgVerif.Reduce in
+/-- the key history as the reduce node sees it (no zero input): leaf bookkeeping and tree shape by the C11 model,
+    the order of the removed / added / modified keys by the slot store of the replayed dictionary -/
+def redInputs (cycles : List (List Op)) : List RedIn :=
+  let step := fun (acc : TSD × List Int × Int × Nat × Tree Int × List RedIn) (ops : List Op) =>
+    let (x, present, v, idx, tr, out) := acc
+    let t := idx + 1
+    let r := ops.foldl (fun (a : List Int × List Int × List Int) o =>
+      match o with
+      | .add k => (a.1, if a.2.1.contains k then a.2.1 else a.2.1 ++ [k], if a.2.2.contains k then a.2.2 else a.2.2 ++ [k])
+      | .del k => if a.2.2.contains k then (a.1 ++ [k], a.2.1, a.2.2.filter (· != k)) else a
+      | _ => a) (([] : List Int), ([] : List Int), present)
+    let removedKeys := r.1
+    let plusKeys := sortInts r.2.1
+    let present' := r.2.2
+    if removedKeys.isEmpty && plusKeys.isEmpty then (x, present', v, idx + 1, tr, out ++ [{ active := false }])
+    else
+      let removedSlots := removedKeys.filterMap fun k => (findLive x.keys.slots k).map fun s => (s, k)
+      let x1 := removedKeys.foldl (fun y k => (y.erase t k).1) x
+      let x2 := plusKeys.foldl (fun (yv : TSD × Int) k => (yv.1.set t k (yv.2 + 1), yv.2 + 1)) (x1, v)
+      let y := x2.1
+      let slotOf := fun k => (findLive y.keys.slots k).map fun s => (s, k)
+      let removedOrd := (sortSlots removedSlots).map (·.2)                      -- removed chain (ascending slots)
+      let modifiedOrd := (sortSlots (plusKeys.filterMap slotOf)).map (·.2)     -- modified chain, added keys included
+      let liveOrd := (List.range y.keys.cap).filterMap fun i =>
+        let s := sget y.keys.slots i
+        if s.st == .live then some s.key else none
+      -- `reduce_reconcile`
+      let full := !tr.primed
+      let rl := reconcileLeaves { tr with structLeaves := [] } full removedOrd (if full then liveOrd else modifiedOrd)
+      let t1 : Tree Int := { rl.1 with primed := true }
+      let fullStructure := !tr.published || !tr.primed
+      let rebuilt := rl.2 || !tr.published
+      if !rebuilt then
+        let ev := (modifiedOrd.filterMap fun k => leafOf t1.keys k).foldl
+          (fun acc leaf => (livePath t1.cap t1.combiners leaf).foldl (fun a p => insertDescU p a) acc) []
+        (y, present', x2.2, idx + 1, t1, out ++ [{ active := true, ticked := ev.map fun p => 2 * p + t1.bank }])
+      else
+        -- `rebuild_structure`
+        let live := t1.keys.length
+        let capacity := max t1.cap (if live > 0 then bitCeil live else 0)
+        let bankChanged := capacity != t1.cap
+        let oldBank := t1.bank
+        let retiredShape := if bankChanged then livePositions t1.combiners else []
+        let comb0 := if bankChanged then List.replicate (if capacity > 1 then capacity - 1 else 0) false else t1.combiners
+        let bank := if bankChanged then 1 - t1.bank else t1.bank
+        let fullS := fullStructure || bankChanged
+        let positions := if fullS then allPositionsDesc comb0.length
+                         else structuralPositions capacity comb0.length t1.structLeaves
+        let ph := positions.foldl (phase1Step false capacity live) { comb := comb0 }
+        let t2 : Tree Int := { t1 with cap := capacity, combiners := ph.comb, bank := bank, published := true }
+        -- `prepare_reduce_evaluation_positions`: the structural positions that hold a combiner and the paths of the
+        -- modified leaves; every one of them is due (a created combiner samples, a re-pointed one samples, a tick cascades)
+        let ev0 := (positions.filter fun p => ph.comb[p]? == some true).foldl (fun a p => insertDescU p a) []
+        let ev := (modifiedOrd.filterMap fun k => leafOf t2.keys k).foldl
+          (fun acc leaf => (livePath t2.cap t2.combiners leaf).foldl (fun a p => insertDescU p a) acc) ev0
+        let I : RedIn :=
+          { active := true
+            create := ph.created.reverse.map fun p => 2 * p + bank
+            retire := (ph.retired.reverse.map fun p => 2 * p + bank) ++ retiredShape.map fun p => 2 * p + oldBank
+            ticked := ev.map fun p => 2 * p + bank }
+        (y, present', x2.2, idx + 1, t2, out ++ [I])
+  (cycles.foldl step (({} : TSD), ([] : List Int), (0 : Int), 0, ({} : Tree Int), ([] : List RedIn))).2.2.2.2.2
+
 def swInputs (cycles : List (List Op)) : List SwIn :=
   cycles.map fun ops =>
     let key := ops.foldl (fun (a : Option Int) o => match o with | .sel k => some k | _ => a) none
@@ -177,6 +252,9 @@ def runHistory (d : DS) (recorder : Bool) : List String :=
     if d.isSwitch then
       let r := swRun cfg h (swInputs d.cycles) {}
       (r.ret.w.tr, r.fin.w.tr, r.err, (swRunCycles cfg h (swInputs d.cycles) 0 { w := { u := {} } }).2.isSome)
+    else if d.isReduce then
+      let r := redRun cfg h (redInputs d.cycles) {}
+      (r.ret.w.tr, r.fin.w.tr, r.err, (redRunCycles cfg h (redInputs d.cycles) 0 { m := { w := { u := {} } } }).2.isSome)
     else
       let r := run cfg h (mapInputs d.cycles) {}
       (r.ret.w.tr, r.fin.w.tr, r.err, (runCycles cfg h (mapInputs d.cycles) 0 { w := { u := {} } }).2.isSome)
@@ -217,8 +295,8 @@ def step (recorder : Bool) (d : DS) (ws : List String) : DS × List String :=
     ({}, out ++ [s!"case {n}"])
   | ["cfg", kind, n, c] =>
     let (d1, out) := flush d recorder false
-    let ok := (kind == "map" || kind == "switch") && (n == "1" || n == "2" || n == "3") && (c == "0" || c == "1")
-    if ok then ({ d1 with isSwitch := kind == "switch", n := n.toNat!, cleanup := c == "1", cfgBad := false }, out ++ ["ok"])
+    let ok := (kind == "map" || kind == "switch" || kind == "reduce") && (n == "1" || n == "2" || n == "3") && (c == "0" || c == "1")
+    if ok then ({ d1 with isSwitch := kind == "switch", isReduce := kind == "reduce", n := n.toNat!, cleanup := c == "1", cfgBad := false }, out ++ ["ok"])
     else ({ d1 with cfgBad := true }, out ++ ["bad-op"])
   | ["fs", k] =>
     let (d1, out) := flush d recorder false
